@@ -179,7 +179,10 @@ def gen_cases(seed, tier, shard, nshards):
         add('hmac-' + alg, 'M %s %s %s %s' % (alg, core.hx(k), core.hx(m), pstr(p)),
             hmac.new(k, m, HL[alg]).hexdigest(), sig('M', alg, kl, ml, len(p)), True)
     # (4) PBKDF2: dkLen 1..200 (sharded), salts 0..100, c small / random
-    for dk in list(range(1, 201)) + [1000, 4097]:
+    # ... and lengths whose block counter INT(i) passes 255 -> 256 (8160 bytes),
+    # 511 -> 512 and, in the thorough tier, 65535 -> 65536 (2 MiB)
+    for dk in list(range(1, 201)) + [1000, 4097, 8160, 8161, 8192, 8197, 16385, 70001] + \
+            ([2097159] if tier != 'quick' else []):
         if dk % nshards != shard:
             continue
         for _ in range(2):
@@ -296,7 +299,7 @@ def run(ctx):
     ctx.count('long_streams_over_2^32_bits', sum(r['evals'] for r in lres))
     ctx.cov['rule'] = ('cases = (algorithm, message, partition into update calls[, key | salt,c,dkLen | alignment]); '
                        'every length 0..600 x {single, bytewise, random} partitions, every HMAC key length 0..200, '
-                       'every PBKDF2 dkLen 1..200, every (CRC length 0..80, alignment 0..15), plus random; '
+                       'every PBKDF2 dkLen 1..200 and lengths around 255/256 and 511/512 output blocks (65535/65536 in thorough), every (CRC length 0..80, alignment 0..15), plus random; '
                        'non-trivial = >= 2 update calls or a length within 9 of a 64-byte boundary (all HMAC/PBKDF2/CRC cases count); '
                        'distinct = distinct (kind, lengths, partition shape) signatures')
     ctx.cov['sanitizers'] = 'gcc -fsanitize=address,undefined (nonnull-attribute off), exact-size heap buffers'
